@@ -4,7 +4,7 @@
 import json, os, shutil, sys, glob, re
 V = os.path.dirname(os.path.dirname(os.path.abspath(__file__)))
 kept = 0
-for d in sorted(glob.glob("/tmp/seedout/C*/[ab]")) + sorted(glob.glob("/tmp/seedout3/C*/[ab]")):
+for d in sorted(glob.glob("/tmp/seedout/C*/[ab]")) + sorted(glob.glob("/tmp/seedout3/C*/[ab]")) + sorted(glob.glob("/tmp/seedout4/C*/[ab]")):
     cj = os.path.join(d, "confirm.json")
     if not os.path.exists(cj):
         continue
@@ -14,6 +14,8 @@ for d in sorted(glob.glob("/tmp/seedout/C*/[ab]")) + sorted(glob.glob("/tmp/seed
     prop, var = d.split("/")[-2:]
     if "/seedout3/" in d:  # third round: second agent for the same property
         var = {"a": "c", "b": "d"}[var]
+    if "/seedout4/" in d:  # fourth round
+        var = {"a": "e", "b": "f"}[var]
     out = os.path.join(V, "seeded", f"{prop}_{var}")
     os.makedirs(out, exist_ok=True)
     for fn in ("patch.diff", "demo.py", "notes.md"):
